@@ -13,6 +13,7 @@ Require Import List ZArith Lia. Import ListNotations.
 Require Import F204.Base.Util F204.Base.Mach F204.Gen.Params F204.Gen.Guards F204.Gen.Oids
   F204.Hash.HashIface F204.Impl.Hashing F204.Impl.MlDsa F204.Impl.Api F204.Spec.SpecConv F204.Spec.SpecSample F204.Spec.SpecMLDSA F204.Proofs.ApiGuards
   F204.Proofs.BitPackProofs F204.Proofs.SampleRefine F204.Proofs.VerifyRefine.
+Require Import F204.Proofs.RealHashes.
 Open Scope Z_scope.
 
 Theorem C02_verify_is_FIPS204_Verify : forall H, HashLaws H -> forall P, In P all_params ->
@@ -85,6 +86,10 @@ Proof.
   - now apply spec_verify_ctx.
   - unfold HashVerify. assert (E : (255 <? zlen ctx) = true) by now apply Z.ltb_lt. now rewrite E.
 Qed.
+
+(* non-vacuity of the hash hypothesis: the executable Keccak/SHA-2 models that the correspondence harness
+   runs (HashIface.real_hashes) satisfy HashLaws, so the theorem applies to the executed model *)
+Definition C02_for_the_executed_model := C02_verify_is_FIPS204_Verify real_hashes real_hashes_laws.
 
 Print Assumptions C02_verify_is_FIPS204_Verify.
 Print Assumptions C02_hash_verify_is_FIPS204_HashVerify.
